@@ -5,7 +5,7 @@ Recognised shapes (anything else raises AnchorMissing):
                       self.fs = self.R*self.sps; self.dt = 1/self.fs; self.f0 = c/self.wavelength
                       self.N = self.t = self.dw = self.w = None
   __call__:           parameters (self, sps=None, R=None, fs=None, wavelength=<number literal>, N=None, **kargs)
-  clean:              the literal list of attribute names that are not deleted
+  clean:              attrs = [attr for attr in vars(self) if not attr in <literal list>]; for attr in attrs: delattr(self, attr)
 """
 import ast
 from extract import AnchorMissing, find_def, parse, lit_number, lean_rat, HEADER
@@ -77,15 +77,23 @@ def generate(repo):
             keep = [e.value for e in node.comparators[0].elts]
     if keep is None:
         raise AnchorMissing("clean: list of kept attribute names")
-    # the filter of clean(): not callable(...) and not attr.startswith("__") and not (attr in [...])
+    # the comprehension of clean():  [attr for attr in vars(self) if not attr in [...]]  followed by  for attr in attrs: delattr(self, attr)
     comp = [n for n in ast.walk(clean) if isinstance(n, ast.ListComp)]
     if len(comp) != 1 or len(comp[0].generators) != 1 or len(comp[0].generators[0].ifs) != 1:
         raise AnchorMissing("clean: attribute comprehension")
-    cond = ast.unparse(comp[0].generators[0].ifs[0])
-    want = "not callable(getattr(gv, attr)) and (not attr.startswith('__')) and (not attr in " + \
-           ast.unparse(ast.List(elts=[ast.Constant(k) for k in keep], ctx=ast.Load())) + ")"
+    gen = comp[0].generators[0]
+    if ast.unparse(comp[0].elt) != "attr" or ast.unparse(gen.target) != "attr" or ast.unparse(gen.iter) != "vars(self)":
+        raise AnchorMissing(f"clean: comprehension is over {ast.unparse(gen.iter)!r}, expected vars(self)")
+    cond = ast.unparse(gen.ifs[0])
+    want = "not attr in " + ast.unparse(ast.List(elts=[ast.Constant(k) for k in keep], ctx=ast.Load()))
     if cond != want:
         raise AnchorMissing(f"clean: filter is {cond!r}")
+    assigned = [s.targets[0].id for s in clean.body if isinstance(s, ast.Assign) and isinstance(s.targets[0], ast.Name)
+                and s.value is comp[0]]
+    loops = [n for n in clean.body if isinstance(n, ast.For)]
+    if len(assigned) != 1 or len(loops) != 1 or ast.unparse(loops[0].iter) != assigned[0] \
+            or [ast.unparse(x) for x in loops[0].body] != [f"delattr(self, {ast.unparse(loops[0].target)})"] or loops[0].orelse:
+        raise AnchorMissing("clean: `for attr in attrs: delattr(self, attr)`")
     keep_s = "[" + ", ".join('"' + k + '"' for k in keep) + "]"
     return HEADER + f"""namespace OptiVerif.Gen.Gv
 
@@ -103,7 +111,7 @@ def cleanWavelength : Rat := {lean_rat(c_wl)}
 /-- default of the `wavelength` parameter of `__call__` (every other parameter defaults to `None`) -/
 def callWavelength : Rat := {lean_rat(call_wl)}
 
-/-- names `clean()` never deletes; it deletes every other attribute that is not callable and does not start with `__` -/
+/-- names `clean()` never deletes; it deletes every other attribute found in `vars(self)` -/
 def cleanKeeps : List String := {keep_s}
 
 end OptiVerif.Gen.Gv
